@@ -9,7 +9,7 @@ from . import common
 
 
 PROPS = {
-    'C01': 'harness.c01', 'C02': 'harness.c02', 'C15': 'harness.c15',
+    'C01': 'harness.c01', 'C02': 'harness.c02', 'C15': 'harness.c15', 'C14': 'harness.c14',
 }
 
 
